@@ -14,7 +14,8 @@ enum { P_CUT_MID_VALUE = 0, P_CUT_AT_BOUNDARY, P_ALL_READ, P_EXACT_FIT, P_ONE_OV
 const char *probe_names[] = {"cut_made_a_read_throw", "cut_at_value_boundary", "all_values_read_back", "fixed_writer_exact_fit", "fixed_writer_one_byte_over",
                              "fixed_writer_rejected_a_write", "empty_string_or_vector", "nested_vector", "reader_attached_while_writing_finished", "string_or_vector_of_255_to_2^20_elements", "string_of_16MiB_or_more", nullptr};
 const char *tn[] = {"u8", "i16", "i32", "u64", "float", "double", "pod-struct", "string", "c-string", "vector<int>", "vector<string>", "vector<vector<int>>",
-                    "ArrayView", "OwnedArray", "FixedArray", "FixedArrayView"};
+                    "ArrayView", "OwnedArray", "FixedArray", "FixedArrayView", "vector<uint8_t>", "vector<int16_t>", "vector<struct of 3 bytes with member initialisers>",
+                    "vector<pair<uint16_t,uint16_t>>", "vector<1-byte struct with a constructor>", "vector<double>", "vector<pod-struct>"};
 void reset()
 {
   memset(&plan, 0, sizeof plan);
